@@ -491,7 +491,58 @@ def falsy_of(name, src):
     raise ValueError("%s: arms do (%s, %s), expected %s" % (name, k1, k2, expect))
 
 
+def inline_local_helpers(src, keep):
+    """Replace calls of private helper functions of this file whose body is a single expression by
+    that expression with the arguments substituted for the parameters (plain identifiers / paths /
+    `x.clone()` arguments only).  Functions named in [keep] are never inlined.  A harmless
+    extract-function refactoring then leaves the recognised shapes unchanged."""
+    helpers = {}
+    for m in re.finditer(r"(?m)^(pub(?:\([^)]*\))? )?fn (\w+)\b", src):
+        name = m.group(2)
+        if name in keep:
+            continue
+        try:
+            header, body = fn_header_and_body(src, name)
+        except ValueError:
+            continue
+        b = norm(body)
+        if not b or split_top(b, ";")[1:] or b.startswith("let "):
+            continue
+        helpers[name] = (params_of(header), b)
+    for _ in range(3):
+        changed = False
+        for name, (params, body) in helpers.items():
+            pos = 0
+            while True:
+                m = re.compile(r"(?<![\w.:])%s\(" % re.escape(name)).search(src, pos)
+                if not m:
+                    break
+                before = src[max(0, m.start() - 3):m.start()]
+                if before.endswith("fn "):
+                    pos = m.end()
+                    continue
+                j = R.match_brace(src, m.end() - 1, "(", ")")
+                args = [norm(a) for a in split_top(src[m.end():j - 1], ",") if a.strip()]
+                if len(args) != len(params) or not all(re.match(r"^&?(mut )?[\w.:]+(\.clone\(\))?$", a) for a in args):
+                    pos = m.end()
+                    continue
+                e = body
+                tmp = {}
+                for k, (pn, a) in enumerate(zip(params, args)):
+                    tmp["\x00%d\x00" % k] = a
+                    e = re.sub(r"(?<![\w.])%s\b" % re.escape(pn[0]), "\x00%d\x00" % k, e)
+                for k, a in tmp.items():
+                    e = e.replace(k, a)
+                src = src[:m.start()] + e + src[j:]
+                pos = m.start() + len(e)
+                changed = True
+        if not changed:
+            break
+    return src
+
+
 def logic_shapes(src):
+    src = inline_local_helpers(src, keep=("and", "or", "xor", "not", "tis", "is_true_value"))
     out = {}
     for name in ("and", "or"):
         _, body = fn_header_and_body(src, name)
@@ -508,7 +559,7 @@ def logic_shapes(src):
             mm = re.match(r"^\{ push_boolean\(this, (true|false)\)\?; Ok\(None\) \}$", v)
             if mm:
                 sh[k] = "(LPush %s)" % mm.group(1)
-            elif re.match(r"^match this\.get_from_jump_table\(data\.clone\(\)\) \{ Some\(v\) => Ok\(Some\(v\)\), None => state_error\(.*\),? \}$", v):
+            elif re.match(r"^match this\.get_from_jump_table\(data(\.clone\(\))+\) \{ Some\((\w+)\) => Ok\(Some\(\2\)\), None => state_error\(.*\),? \}$", v):
                 sh[k] = "LJump"
             else:
                 raise ValueError("%s: arm %s not recognised: %s" % (name, k, v))
